@@ -32,6 +32,8 @@ def run(ck):
     ck.clause("C13.3", "segments are built only via AlignmentSegment.create / EmptyAlignmentSegment")
     ck.clause("C13.4", "empty-segment fallback and final emission")
     ck.clause("C13.5", "the scan covers every position once")
+    ck.clause("C13.10", "a break ends the run for good: the candidate kept so far is either emitted or dropped, on every path through the "
+                        "break the next run starts from an empty candidate (its running maximum and the prefix it has to beat are its own)")
     ck.clause("C13.6", "a segment's score is exactly the sum of its members' scores (as C04.2): the builder compares its running sum with it")
     from ..report import RuleView
     from . import c04
@@ -253,7 +255,7 @@ def run(ck):
                                  "the segment remembers the full position list of its peak", found=T.show(a.get("allPeakPositions", C(None))))
                         start_attr = pos[2]
                         # reset at a break
-                        _break_reset(ck, builder, methods, start_attr, END, EXT)
+                        _break_reset(ck, builder, methods, start_attr, END, EXT, self_attr(seg_attr), same_class)
     ck.floor("C13.2 AlignmentSegment.create sites in the builder", n_create, 1)
 
     # ---- C13.3 constructions
@@ -367,7 +369,7 @@ def _counts_positions(ck, m, loop, pos_attr) -> bool:
 _reset_done = set()
 
 
-def _break_reset(ck, builder, methods, start_attr, END, EXT):
+def _break_reset(ck, builder, methods, start_attr, END, EXT, SEG, same_class):
     key = (id(ck), builder.qualname)
     if key in _reset_done:
         return
@@ -390,5 +392,60 @@ def _break_reset(ck, builder, methods, start_attr, END, EXT):
                          found=f"start={T.show(sets[start_attr][0])}, cursor={T.show(sets[END][0])}", required=T.show(want))
                 ck.judge(sets[EXT][0] == C(0), "C13.2", f"{builder.name}:break-score-reset", w,
                          "the running score restarts at 0 after a break", found=T.show(sets[EXT][0]), required="0")
+                _candidate_reset(ck, builder, m, start_attr, SEG, same_class)
     if not found:
         raise AnalysisError(f"{builder.where}: the statement sequence that restarts the scan after a break was not found")
+
+
+def _candidate_after(ck, builder, m, SEG, depth=2):
+    """Per path of `m`: what the candidate attribute holds when the path ends - a term, or None when it is left as it was.
+    Statement-level calls of the builder's own methods are followed (they are procedures: the explorer records the call only)."""
+    out = []
+    for pa in explore(ck, m, track_heap=True, unroll=(0,)):
+        last = None
+        for e in pa.events:
+            if e.kind == "setattr" and e.extra["target"] == SEG:
+                last = ("set", e.term)
+            elif e.kind == "call" and e.term[0] == "app" and depth:
+                callee = next((f for f in builder.methods.values() if f.qualname == e.term[1]), None)
+                if callee is not None and callee is not m:
+                    sub = _candidate_after(ck, builder, callee, SEG, depth - 1)
+                    kinds = {x[1] for x in sub}
+                    if kinds == {None}:
+                        continue
+                    if None in kinds:
+                        last = ("maybe", next(x[0] for x in sub if x[1] is None))       # kept on some path of the callee
+                    else:
+                        vals = {x[1][1] for x in sub}
+                        last = ("set", vals.pop()) if len(vals) == 1 else ("mixed", None)
+        out.append((pa, last))
+    return out
+
+
+def _candidate_reset(ck, builder, m, start_attr, SEG, same_class):
+    """C13.10: every path through the statement sequence that restarts the scan leaves an empty candidate behind. The break test
+    and the accept test read the candidate's score (C13.1): a candidate of the previous run that stays in place - it was below
+    minScore, so it was not emitted - is the 'running maximum' of the next run and the score its prefixes have to beat."""
+    n_paths = 0
+    for pa, last in _candidate_after(ck, builder, m, SEG):
+        if not any(e.kind == "setattr" and e.extra["target"] == start_attr for e in pa.events):
+            continue
+        n_paths += 1
+        if last is None or last[0] == "maybe":
+            kept = last[1] if last else pa
+            conds = [T.show(e.term) for e in kept.events if e.kind == "cond"] if hasattr(kept, "events") else []
+            ck.violation("C13.10", f"{builder.name}:break-candidate-reset", m.where,
+                         "a break ends the run: the next run starts from an empty candidate on every path (a candidate below minScore "
+                         "that survives the break is the running maximum the next run is broken against and the score its prefixes "
+                         "have to beat: a qualifying run is cut short or never accepted)",
+                         found=f"{T.show(SEG)} is left as it is on a path through the break" +
+                               (f" (a path that only tests {'; '.join(conds)[:160]})" if conds else ""),
+                         required=f"{T.show(SEG)} = EmptyAlignmentSegment(...) on every path through the break")
+            continue
+        if last[0] == "set" and last[1][0] == "new" and last[1][1].endswith("EmptyAlignmentSegment"):
+            ck.ok("C13.10", f"{builder.name}:break-candidate-reset", m.where, "the candidate is empty after the break")
+        else:
+            raise AnalysisError(f"{m.where}: what the candidate is after a break is not recognised: "
+                                f"{T.show(last[1])[:140] if last[1] is not None else last[0]}")
+    if not n_paths:
+        raise AnalysisError(f"{m.where}: no path through the break sequence found for the candidate rule")
